@@ -16,12 +16,12 @@ type Param struct {
 }
 
 type Method struct {
-	Name    string
-	Params  []Param
-	Result  *Type // nil for update methods
-	HasErr  bool
-	Lines   []string // goverter: setting lines (without prefix)
-	Spec    *vref.MethodSpec
+	Name   string
+	Params []Param
+	Result *Type // nil for update methods
+	HasErr bool
+	Lines  []string // goverter: setting lines (without prefix)
+	Spec   *vref.MethodSpec
 }
 
 // Converter is one goverter:converter interface or goverter:variables block.
@@ -33,10 +33,10 @@ type Converter struct {
 	Lines   []string
 	Methods []*Method
 	// Output location (for glue): package holding the emitted code, and its import path suffix.
-	OutPkgPath string // relative to case root
-	OutPkgName string
-	ImplName   string
-	Spec       *vref.Spec
+	OutPkgPath   string // relative to case root
+	OutPkgName   string
+	ImplName     string
+	Spec         *vref.Spec
 	ExtraImports []string
 	// GlueImports are import lines only the glue package needs (custom function packages).
 	GlueImports []string
